@@ -55,6 +55,12 @@ FIXED += [
     ("D2", ["C01"], "fix: gnmi_cli parses the subscribe request loaded with -proto_file", "cli-proto-file-ignored",
      "gnmi_cli -proto_file f (Subscribe) failed to parse the request although the same text with -proto works"),
 ]
+FIXED += [
+    ("D12", ["C15"], "fix: cache synchronises the per-target sync flag between refresh and update stream", "race:cache.(*Target).gnmiUpdate|cache.(*Target).gnmiUpdate",
+     "data race on Target.sync between the metadata refresh goroutine (generateMetaUpdates -> gnmiUpdate writes it) and the target's update stream (reads it for every data update)"),
+    ("D6", ["C10", "C15"], "fix: ctree delete locks each node it inspects", "race:ctree.(*Leaf).Update|ctree.(*Tree).internalDelete",
+     "data race between Leaf.Update through a retained handle and Delete/WalkDeleted reading node values under the root lock only (in the collector: metadata refresh vs the stream deleting meta/connectError)"),
+]
 OPEN = [
     dict(id="D15", properties=["C19"], status="open", **{"class": "query-elem-edge-slash"}, part="query",
          what="a client query whose last element ends with '/' loses that element on the way to the server (e.g. [\"/\"] is indexed as []): ygot's string path parser drops the last part of a string ending in '/', even the escaped one pathToString produces; no small safe repair (the string round trip is what parses [k=v] keys)",
